@@ -47,7 +47,8 @@ def strategy(tier):
         "strategy": st.sampled_from([1, 2, 3, 3]),
         "log_level": st.sampled_from([None, None, 50, 10, 0]),
         "prev_strategy": st.sampled_from([None, 1, 2, 3]),
-        "when": st.sampled_from(["after-init", "after-init", "before-init", "before-reinit", "before-cleanup-init"]),
+        "when": st.sampled_from(["after-init", "after-init", "before-init", "before-reinit", "before-cleanup-init",
+                                 "after-abandoned-pilot"]),
         "direct": st.booleans(),
         "fault_kind": st.sampled_from(["msg", "msg", "msg", "noargs", "stopiteration", "assert", "keyerror",
                                        "odd-message", "non-str-arg", "base", "bad-request", "bad-request"]),
@@ -100,6 +101,17 @@ def _one_run(out, prog, strat, drive, cuts, mix, tag, log_level=None, prev=None,
             m.simulator.set_error_strategy(a[1])
     h.model.extra_action = sut_action
     try:
+        if when == "after-abandoned-pilot":
+            # an earlier replication of the same model was abandoned half-way (paused, then cleanup()): none of its
+            # events belongs to the replication that follows
+            h.initialize()
+            r0 = RefSim(prog)
+            r0.initialize()
+            h.run_piece(["run_up_to", _jt(_bound(r0, 4, ck), ck)])
+            h.sim.cleanup()
+            from vlib.simharness import Recorder
+            h.rec = Recorder()
+            when = "after-init"
         if when != "before-init":
             h.initialize()
         if prev is not None:
